@@ -6,7 +6,8 @@
    T, ns, NBATCH, nprocesses otherwise unbounded (the source has T = 1024). *)
 From Coq Require Import ZArith List Bool Lia Permutation.
 From IBL.lib Require Import PyInt.
-From IBL.C06 Require Import Model Proofs SyncCast SyncProofs.
+From IBL.C17 Require Import FloatCeil.
+From IBL.C06 Require Import Model Proofs SyncCast SyncProofs FloatDiv FloatProofs.
 Import ListNotations.
 Open Scope Z_scope.
 
@@ -189,6 +190,25 @@ Theorem C06_sync_cast_exact : forall r, -32768 <= r <= 32767 ->
 Proof. exact sync_exact. Qed.
 Print Assumptions C06_sync_cast_exact.
 
+(* 13. The two float64 quotients of the source are the model's exact integer operations, for every
+   recording below 2^53 samples: int(sr.ns / nprocesses) is the integer floor ns / P and
+   int(np.ceil(i_chunk * CHUNK_SIZE / NBATCH)) is the integer ceiling (IEEE-754 binary64 division
+   of the exact integers, round to nearest even; Flocq.  The ceiling half is C17's
+   float64_ceil_div_exact). *)
+Theorem C06_float_quotients_exact : forall c i, dom c -> c_ns c < 2 ^ 53 -> c_NB c < 2 ^ 53 ->
+  0 <= i < c_P c ->
+  floor_div64 (c_ns c) (c_P c) = chunk_size c /\
+  ceil_div64 (i * chunk_size c) (c_NB c) = start_batch c i.
+Proof. exact quotients_exact. Qed.
+Print Assumptions C06_float_quotients_exact.
+
+(* 14. Converse of the domain hypothesis T <= ns: on a recording shorter than one taper the first
+   worker fails on its first chunk (the taper multiplication cannot broadcast: ValueError). *)
+Theorem C06_short_recording_fails : forall c, 0 <= c_T c -> c_T c * 2 < c_NB c ->
+  1 <= c_ns c < c_T c -> 1 <= c_P c -> worker c 0 = WShort 0.
+Proof. exact short_recording_fails. Qed.
+Print Assumptions C06_short_recording_fails.
+
 (* The hypotheses are satisfiable on a concrete, non-trivial call: 12000 samples, batch 3000
    (stride 952, 11 batches), 3 workers, 5 padding samples, 65 int16 columns. *)
 Definition ex_cfg := mkCfg 1024 12000 3000 3 5 0 65 2 64 0 0.
@@ -218,3 +238,13 @@ Example ex_sat :
   (sat_first ex_cfg 2000, sat_last ex_cfg 2000) = (0, 2) /\
   sat_after (all_sat_ops (with_P ex_cfg 1)) 2000 = Some (1904, 96).
 Proof. vm_compute. split; reflexivity. Qed.
+(* hypotheses of 5 / 6: two worker counts and an append offset on the same call *)
+Example ex_dom_workers : dom (with_P ex_cfg 1) /\ dom (with_P ex_cfg 8) /\ dom (with_offset ex_cfg 1560650).
+Proof. unfold dom, with_P, with_offset, ex_cfg; cbn. lia. Qed.
+(* hypotheses of 13 *)
+Example ex_float_hyp : c_ns ex_cfg < 2 ^ 53 /\ c_NB ex_cfg < 2 ^ 53 /\
+  chunk_size ex_cfg = 4000 /\ map (start_batch ex_cfg) [0; 1; 2] = [0; 2; 3].
+Proof. vm_compute. repeat split; reflexivity. Qed.
+(* hypotheses of 14: 1000 samples *)
+Example ex_short : worker (mkCfg 1024 1000 4096 2 0 0 9 2 8 0 0) 0 = WShort 0.
+Proof. vm_compute. reflexivity. Qed.
